@@ -43,4 +43,11 @@ def run(prop, tier, vseed):
                   {"alphabet": "full", "depth": 2, "seeds": "xmlctor"},
                   {"alphabet": "mini", "depth": 3, "seeds": "rep"}]),
         ]
-    return run_plan(prop, tier, vseed, plan, RULES[prop], ASSUME, t0=t0)
+    extra_f, extra_c = [], None
+    if prop == "C07":
+        from . import names_c07
+
+        extra_f, nc = names_c07.run(3 if tier == "quick" else 4)
+        extra_c = {"names": {k: v for k, v in nc.items() if k != "samples"}, "evaluations": nc["evaluations"],
+                   "distinct_nontrivial": nc["distinct_nontrivial"], "samples": nc["samples"]}
+    return run_plan(prop, tier, vseed, plan, RULES[prop], ASSUME, t0=t0, extra_failures=extra_f, extra_cov=extra_c)
